@@ -175,6 +175,11 @@ def main():
     ap.add_argument("--replay", default=None)
     a = ap.parse_args()
     pid = a.pid
+    # z3 is not thread-safe: Python's cyclic garbage collector may run in ANY thread (the Kani job pool, the cvc5 pool) and would
+    # then release z3 AST references concurrently with the E2 thread that is using the solver (a rare segfault, seen once in a
+    # fresh sandbox).  Automatic collection is switched off; the E2 thread collects explicitly between obligations.
+    import gc
+    gc.disable()
     seed = int(os.environ.get("VERIF_SEED", "0") or 0)
     if a.replay:
         rp = json.load(open(a.replay))
